@@ -814,6 +814,40 @@ def check_scalars(cx):
             chk.fail("spec:scalar:int", "fun_corr:%s<int>:differs-from-definition" % l.split()[1], "`%s`: %s" % (l, what),
                      {"line": l, "plain_build": pa, "sanitised_build": pu, "definition": val, "replay_cmd": cx.replay_ub(l)}, True)
 
+    # ---- equal (T1 a, T2 b, T3 t) at MIXED element types: |a - b| <= t in the common type of a and b (the usual arithmetic conversions);
+    #      narrowing the difference to T1 (abs<T1> (a - b)) changes the verdict exactly when the fractional / low-order part decides it
+    import random as _random
+    mrng = _random.Random(chk.seed * 7919 + 17)      # its own stream: the draws of the later sections stay what they were
+    mlines, mwant = [], []
+    for _ in range(300):
+        a = mrng.randrange(-50, 50)
+        b = a + mrng.choice([-1, 1]) * mrng.choice([0.25, 0.5, 0.75, 0.999, 1.25, 2.75])
+        t = mrng.choice([0.0, 0.001, 0.25, 0.5, 0.75, 1.0, 2.0])
+        mlines.append("sm id %d %s %s" % (a, hd(b), hd(t))); mwant.append(1 if abs(float(a) - b) <= t else 0)
+        mlines.append("sm lf %d %s %s" % (a, hf(tof(b)), hf(tof(t)))); mwant.append(1 if abs(tof(float(a) - tof(b))) <= tof(t) else 0)
+        fa = tof(a + mrng.choice([0.0, 0.5, 0.125]))
+        db = fa + mrng.choice([-1, 1]) * mrng.choice([1e-50, 2.0 ** -30, 2.0 ** -60, 0.25, 1.0])
+        dt = mrng.choice([0.0, 2.0 ** -40, 0.25, 0.5])
+        mlines.append("sm fd %s %s %s" % (hf(fa), hd(db), hd(dt))); mwant.append(1 if abs(float(fa) - db) <= dt else 0)
+        da = a + mrng.choice([0.0, 2.0 ** -30, 0.3])
+        fb, ft = tof(a + mrng.choice([0.25, -0.5, 1.0])), tof(mrng.choice([0.0, 0.25, 0.5, 1.0]))
+        mlines.append("sm df %s %s %s" % (hd(da), hf(fb), hf(ft))); mwant.append(1 if abs(da - float(fb)) <= float(ft) else 0)
+    mlines += ["sm id 2 %s %s" % (hd(2.75), hd(0.5)), "sm id 0 %s %s" % (hd(-0.999), hd(0.001)), "sm fd %s %s %s" % (hf(0.0), hd(1e-50), hd(0.0))]
+    mwant += [0, 0, 0]
+    rcm, ma = run_lines(cx.binary, mlines, "sm")
+    if rcm == 0 and len(ma) == len(mlines):
+        mbad = [(l, a_, w_) for l, a_, w_ in zip(mlines, ma, mwant) if a_.strip() != str(w_)]
+        chk.count(len(mlines), len(mlines))
+        chk.oblige("spec:scalar:mixed: equal<int,double,double> / <long,float,float> / <float,double,double> / <double,float,float> = (|a - b| <= t in the "
+                   "common type) (%d calls, %d expected false)" % (len(mlines), mwant.count(0)), "correspondence", not mbad)
+        for l, a_, w_ in mbad[:3]:
+            chk.fail("spec:scalar:mixed", "fun_corr:equal<mixed %s>:differs-from-definition" % l.split()[1],
+                     "`%s`: the real code returns %s, the definition |a - b| <= t in the common type of a and b gives %d" % (l, a_, w_),
+                     {"line": l, "implementation": a_, "definition": w_, "replay_cmd": cx.replay_cmd(l)}, True)
+    else:
+        chk.oblige("spec:scalar:mixed: harness ran", "correspondence", False, "rc=%s answers=%d of %d" % (rcm, len(ma), len(mlines)))
+        chk.fail("spec:scalar:mixed", "fun_corr:sm:no-output", "the mixed-type equal lines were not answered", {"rc": rcm}, False)
+
     # ---- ulerp / lerp at unsigned int (Q = float), dyadic t and a, b < 2^22: every float operation is exact
     ulines, umeta = [], []
     for _ in range(400):
